@@ -334,7 +334,7 @@ CONTENT_CUTS = {
     'github.com/onosproject/onos-config/pkg/utils/v2/values.PathValuesToGnmiChange': 'new-of-result',
 }
 _TS = {}
-GHOST_LEAVES = ('.W.', 'MaxCommitted', 'LastMerged', 'OutOfOrder', 'SendBefore', 'SendAfter', 'SendNot', 'SendWhile', '.Got[', 'LastSetTx', '.Sets')
+GHOST_LEAVES = ('.W.', 'RepushTerm', 'ResyncNoRepush', 'MaxCommitted', 'LastMerged', 'OutOfOrder', 'SendBefore', 'SendAfter', 'SendNot', 'SendWhile', '.Got[', 'LastSetTx', '.Sets')
 TESTDIR = 'pkg/controller/v2/transaction'
 
 
